@@ -42,7 +42,7 @@ def main():
         "hooks": {
             "guard": "beanpuppy_corrosion_verif",
             "enable": "RUSTFLAGS=\"--cfg beanpuppy_corrosion_verif\" (set in /verif/harness/.cargo/config.toml; the harness crate path-depends on /repo/crates/*)",
-            "baseline_off_cmd": "cd /repo && cargo nextest run --workspace --no-fail-fast --test-threads 8 --offline",
+            "baseline_off_cmd": "cd /repo && cargo nextest run --workspace --no-fail-fast --tool-config-file pb:/w/lib/nextest.toml --profile pb --test-threads 8 --offline",
             "source_commits": hook_commits(),
             "add_only": True,
         },
